@@ -41,6 +41,23 @@ def check_port(ctx, backend, route, scheme, port, host, ui):
         p = None if port in (None, "") else (int(port) if valid else None)
         s = "%s//%s%s%s/p" % (scheme + ":" if scheme else "", ui, htext, "" if port is None else ":" + port)
         make = lambda: URL(s)  # noqa: E731
+    elif route == "build-enc":
+        valid = port is None or (type(port) is int and 0 <= port <= 65535)
+        if not valid:
+            ctx.case(False, label="skipped:not-applicable")
+            return
+        p = port
+        kw = {"scheme": scheme_in, "host": htext, "path": "/p", "encoded": True}
+        if port is not None:
+            kw["port"] = port
+        u = URL.build(**kw)
+        ctx.case(p in NEAR or host >= 3, label=route)
+        d_in = D.get(scheme_in)  # encoded=True keeps the scheme as given: the default port is the one of the stored spelling
+        ctx.check(u.port == (p if p is not None else d_in), "build(encoded=True): port is not the given port (or the default of the stored scheme)", observed=[u.scheme, u.port, u.explicit_port],
+                  expected=p if p is not None else d_in, entry=route)
+        ctx.check(u.explicit_port == p or (p is not None and p == d_in and u.explicit_port is None), "build(encoded=True): explicit_port is not the given port", observed=[u.scheme, u.explicit_port],
+                  expected=p, entry=route)
+        return
     elif route == "ctor-enc":
         # encoded=True: the authority is kept as written; the port accessors and the string form must still agree with the written port
         valid = port is None or port == "" or (port.isascii() and port.isdigit() and int(port) <= 65535)
@@ -197,6 +214,8 @@ def matrix(ctx, backend):
             ctx.run("port", backend=backend, route="build", scheme=scheme, port=port, host=host, ui=ui)
             ctx.run("port", backend=backend, route="with_port", scheme=scheme, port=port, host=host, ui=ui)
             ctx.run("port", backend=backend, route="with_port-nodefault", scheme=scheme, port=port, host=host, ui=ui)
+            if not ui:
+                ctx.run("port", backend=backend, route="build-enc", scheme=scheme, port=port, host=host, ui=ui)
     for s in ["/p", "p", "", "?q", "#f", "mailto:x", "http:/p", "x-other:p", "ftp:", "//"]:
         ctx.run("relative", backend=backend, s=s)
 
